@@ -62,6 +62,9 @@ fn judge(e: &TypeEntry, base: &Base, kind: MutKind, b: &[u8], p: &Probe, acc: &m
         bad.push(("panic/decode-trusted", format!("from_bytes_unchecked panicked: {m}")));
     }
     let ki = kind_idx(kind);
+    if kind == MutKind::Base && base.from_wellformed && p.un == Dec::Err {
+        bad.push(("bytes/valid-encoding-rejected", "from_bytes rejects the encoding of a well-formed value".into()));
+    }
     if p.un == Dec::Ok {
         let post = p.un_post.as_ref().expect("post of accepted value");
         match &post.reenc {
@@ -171,8 +174,11 @@ fn run(rep: &Report) {
         for f in &vs.findings {
             rep.violation(&f.sig, f.case.clone(), f.detail.clone());
         }
-        if let Some(n) = vs.counters.get("findings-dropped") {
-            rep.extra_add("value_findings_not_listed", *n);
+        for (sig, n) in &vs.sig_counts {
+            let kept = vs.findings.iter().filter(|f| &f.sig == sig).count() as u64;
+            for _ in kept..*n {
+                rep.violation(sig, Value::Null, String::new());
+            }
         }
         per_type.insert(e.name.to_string(), json!({"tape_len": vs.tape_len, "values": vs.tapes, "distinct_values": vs.seen.len(), "distinct_lengths": vs.by_len.len(), "letters": vs.letters.len()}));
     }
